@@ -439,10 +439,14 @@ func genBatch(r *vh.RNG, prefix string, nDialects int) *xmlBatch {
 		base := &ref.XDialect{File: prefix + "_mergebase.xml", Enums: []ref.XEnum{
 			{Name: "VF_" + up + "_MERGE_UP", Bitmask: true, Entries: []ref.XEnumEntry{{Name: "VF_" + up + "_MU_A", Value: 1, ValueText: "1"}, {Name: "VF_" + up + "_MU_B", Value: 2, ValueText: "2"}, {Name: "VF_" + up + "_MU_HIGH", Value: 0x8000, ValueText: "0x8000"}}},
 			{Name: "VF_" + up + "_MERGE_DOWN", Bitmask: true, Entries: []ref.XEnumEntry{{Name: "VF_" + up + "_MD_A", Value: 128, ValueText: "128"}, {Name: "VF_" + up + "_MD_B", Value: 16, ValueText: "16"}, {Name: "VF_" + up + "_MD_C", Value: 2, ValueText: "2"}}},
+			{Name: "VF_" + up + "_MERGE_PLAIN", Bitmask: true, Entries: []ref.XEnumEntry{{Name: "VF_" + up + "_MP_A", Value: 4, ValueText: "4"}, {Name: "VF_" + up + "_MP_B", Value: 32, ValueText: "32"}, {Name: "VF_" + up + "_MP_C", Value: 0x4000, ValueText: "0x4000"}}},
 		}}
 		ext := &ref.XDialect{File: prefix + "_mergetop.xml", Version: "2", Includes: []string{base.File}, Enums: []ref.XEnum{
 			{Name: "VF_" + up + "_MERGE_UP", Bitmask: true, Entries: []ref.XEnumEntry{{Name: "VF_" + up + "_MU_C", Value: 4, ValueText: "4"}, {Name: "VF_" + up + "_MU_D", Value: 8, ValueText: "0b1000"}, {Name: "VF_" + up + "_MU_AD", Value: 9, ValueText: "9"}}},
 			{Name: "VF_" + up + "_MERGE_DOWN", Bitmask: true, Entries: []ref.XEnumEntry{{Name: "VF_" + up + "_MD_D", Value: 64, ValueText: "64"}, {Name: "VF_" + up + "_MD_E", Value: 1, ValueText: "1"}, {Name: "VF_" + up + "_MD_F", Value: 256, ValueText: "2**8"}}},
+			// (the extension does not repeat the bitmask attribute, as extensions in the upstream dialects usually do not: the
+			// enum is the bitmask its first definition declared)
+			{Name: "VF_" + up + "_MERGE_PLAIN", Entries: []ref.XEnumEntry{{Name: "VF_" + up + "_MP_D", Value: 1, ValueText: "1"}, {Name: "VF_" + up + "_MP_E", Value: 2048, ValueText: "2048"}, {Name: "VF_" + up + "_MP_F", Value: 8, ValueText: "8"}}},
 		}, Messages: []ref.XMessage{{ID: func() uint32 {
 			for {
 				id := uint32(r.Intn(1 << 24))
